@@ -420,6 +420,38 @@ theorem intro_identity_valid (ks : List Kind) (k : Kind) (hk : k ∈ ks) (opset 
   intro_identity_accepts _ _ _ generated_identity_versions_ok.1 generated_identity_versions_ok.2.1
     generated_identity_versions_ok.2.2 ks k hk opset hreq
 
+open InternalReq Generated.IdentityTypes Func in
+/-- **The pass-through Identity of an inlined model is valid at the model's opset**: whatever the inlined model
+    imports (either spelling) and whatever the rest of the program requires (`others`), the version the model
+    declares for the default domain (`max_opset_policy` over all requirements) is one at which `Identity` accepts
+    every output that is directly an input of the inlined model - optional-typed ones included. -/
+theorem inline_passthrough_identity_valid (imports others : List (String × Nat)) (ks : List Kind) (k : Kind)
+    (hk : k ∈ ks) :
+    ∃ v, getV (policy (inlineReq imports ks ++ others)) "" = some v ∧
+      identityMin minTensor minSeq minOptional k ≤ v := by
+  have hn : norm "" = "" := by decide
+  have h14 : (("", 14) : String × Nat) ∈ inlineReq imports ks ++ others := by simp [inlineReq]
+  obtain ⟨v, hv, hle⟩ := model_opset_covers_both_spellings _ _ h14
+  rw [hn] at hv
+  refine ⟨v, hv, ?_⟩
+  have hb := generated_identity_versions_ok
+  cases k with
+  | optional =>
+    have hany : ks.any (· == Kind.optional) = true := List.any_eq_true.mpr ⟨.optional, hk, by simp⟩
+    have h16 : (("", 16) : String × Nat) ∈ inlineReq imports ks ++ others := by simp [inlineReq, hany]
+    obtain ⟨v', hv', hle'⟩ := model_opset_covers_both_spellings _ _ h16
+    rw [hn, hv] at hv'
+    cases hv'
+    simp only [identityMin]
+    exact Nat.le_trans hb.2.2 hle'
+  | untyped => simp only [identityMin]; exact Nat.le_trans hb.1 hle
+  | tensor => simp only [identityMin]; exact Nat.le_trans hb.1 hle
+  | seq => simp only [identityMin]; exact Nat.le_trans hb.2.1 hle
+
+open InternalReq Func in
+example : getV (policy (inlineReq [("ai.onnx", 15)] [.optional] ++ [("", 14)])) "" = some 16 ∧
+    getV (policy (inlineReq [("", 15)] [.tensor])) "" = some 15 := by decide
+
 open Generated.IdentityTypes in
 /-- the code before fix 8b10170 asked for opset 14 whatever the values: not enough for an optional -/
 theorem intro_req_14_counterexample : ¬ (minOptional ≤ 14) := by decide
